@@ -14,6 +14,7 @@ import (
 	"strings"
 	"sync"
 	"time"
+	"unicode/utf8"
 )
 
 // ---------------------------------------------------------------------------
@@ -98,10 +99,41 @@ func (t *Trace) Emit(key int, events []M) {
 	if key < 0 {
 		key = -key
 	}
+	out := asciiOnly(buf.Bytes())
+	buf.Reset()
+	buf.Write(out)
 	t.mu.Lock()
 	defer t.mu.Unlock()
 	t.w[key%len(t.w)].Write(buf.Bytes())
 	t.lines += len(events)
+}
+
+// asciiOnly rewrites non-ASCII runes of an encoded JSON document as \uXXXX
+// escapes (surrogate pairs above the BMP) so that the trace file is pure ASCII.
+func asciiOnly(b []byte) []byte {
+	ascii := true
+	for _, c := range b {
+		if c >= 0x80 {
+			ascii = false
+			break
+		}
+	}
+	if ascii {
+		return b
+	}
+	var out bytes.Buffer
+	for _, r := range string(b) {
+		switch {
+		case r < 0x80:
+			out.WriteByte(byte(r))
+		case r < 0x10000:
+			fmt.Fprintf(&out, "\\u%04x", r)
+		default:
+			r -= 0x10000
+			fmt.Fprintf(&out, "\\u%04x\\u%04x", 0xd800+(r>>10), 0xdc00+(r&0x3ff))
+		}
+	}
+	return out.Bytes()
 }
 
 func (t *Trace) Index(id int, concrete any) {
@@ -132,12 +164,13 @@ func must(err error) {
 // asciiJSON keeps strings TLC-safe: the Json module reads UTF-8 fine, but we
 // keep anything outside printable ASCII out of event payloads by hex-tagging.
 func safeStr(s string) string {
-	ok := true
-	for i := 0; i < len(s); i++ {
-		c := s[i]
-		if c < 0x20 && c != '\n' && c != '\t' || c >= 0x7f {
-			ok = false
-			break
+	ok := utf8.ValidString(s)
+	if ok {
+		for _, r := range s {
+			if r < 0x20 && r != '\n' && r != '\t' || r == 0x7f || r == utf8.RuneError {
+				ok = false
+				break
+			}
 		}
 	}
 	if ok {
